@@ -6,6 +6,21 @@ ALL = ["C%02d" % i for i in range(1, 21)]
 
 # id -> dict(level, text, note, technique, design, engine, thorough=True)
 CHECKS = {
+ "C15": dict(level="model_checking",
+  text="Discrete-event exploration of the REAL ticker goroutines under the virtual clock up to 6 x update_interval for 173 (quick) configurations: instances (1-3, own work_dirs) x interval mixes x phase offsets {0, 1s, I/4, I/2-1s, I/2+1s} x download duration {0, 5s} x outcome scripts fail^k;ok x signature mode x fetch mode x source {crl_files, crl_urls, CDP}. Oracles with B = 2I + download x instances + 5s: (a) consecutive fetch attempts of every known location at most B apart (starvation), (b) a certificate revoked in a CRL obtainable since p is rejected after p+B, (c) configured CRLs are in force when Provision returns.",
+  note="Timers due at the same instant fire in registration order (not permuted). Liveness is checked up to the horizon only.",
+  technique="explicit exploration of timer-driven histories of the implementation under a virtual clock (bounded-horizon liveness as a safety check)",
+  design="DESIGN.md §4 C15", engine="vsched virtual clock + real ticker goroutines"),
+ "C17": dict(level="exploration",
+  text="Entry counts N enumerated exhaustively in [0,256] and N = 2^k up to 2^15 (quick) / 2^18 (thorough), DER and PEM, through the real streaming reader with a live-heap invariant evaluated in intermediate states (every 64th entry: live(k) <= live(first) + 1 MiB); URL download with a lazily produced body and crl_file copy of 1 / 16 / 64 MiB (512 MiB thorough) with total allocation <= 4 MiB; whole path download -> parse -> LevelDB -> lookup with 2^19 (2^21 thorough) entries with live heap <= first + 24 MiB at 16 intermediate states.",
+  note="Weakest claim: a resource bound for ALL N cannot be established by exploration; what is decided is absence of per-entry retention (>= ~50 B/entry on the disk path, any on the reader path) within the bound. The 10^6+ scale is extrapolated.",
+  technique="bounded enumeration of the entry count with a heap invariant checked in intermediate states of the streaming loop",
+  design="DESIGN.md §4 C17, §7", engine="heap-invariant monitor"),
+ "C20": dict(level="exploration",
+  text="(1) 17 hostile location strings (path traversal, encoded separators, NUL/newline, 5000 chars, unicode, case variants, query, userinfo ...) alone and as ordered CDP pairs on both backends in a sandbox parent directory: every path passed to the os shim must lie inside work_dir, the tree outside is snapshotted (names, sizes, digests) and must not change, work_dir entries are only 64-hex ids / temp names, distinct locations get distinct stores. (2) k = 1..5 Provision/Cleanup cycles x backend x with/without configured CRLs under the virtual clock: every Provision succeeds, no repository goroutine survives Cleanup, no fetch after Cleanup when the clock advances 3 intervals, work_dir registration released, no residue. (3) startup sweep with 8 foreign names around the temp pattern: only crl_*_tmp entries disappear.",
+  note="Foreign entries that do match crl_*_tmp are not judged. LevelDB-internal file names are not inspected (only that they stay under the store directory).",
+  technique="bounded-exhaustive enumeration of location strings and life-cycle histories with file-system effect logging",
+  design="DESIGN.md §4 C20", engine="vos effect log + sandbox tree snapshots + vsched"),
  "C12": dict(level="fault_enumeration",
   text="Crash-point enumeration with real process death: for each disk-backed history (first load accepted / rejected / truncated, refresh accepted / rejected / fetch failure, two refreshes) a child process runs it and SIGKILLs itself at effect point k, for EVERY k (every os / LevelDB shim call of the history, plus after-effect points of rename / removeall); a second child restarts a fresh strict validator over the crashed work_dir with the origin down and reports the verdict vector of 6 probes and the directory listing. Oracle: loaded only with exactly the vector of a complete accepted CRL of that history, no crl_*_tmp after Provision, no store directory removed.",
   note="Crash = process death (completed writes survive, nothing torn), as the property states. goleveldb's internal file operations are not individually crash points (only its API calls).",
